@@ -16,9 +16,32 @@ class ToGFA1:
       segment_names.append(str(oline))
     a.append(",".join(segment_names))
     overlaps = []
-    for oline in self.captured_edges:
-      overlap = oline.line.overlap
-      if oline.orient == "-":
+    segments = self.captured_segments
+    for i, oline in enumerate(self.captured_edges):
+      edge = oline.line
+      overlap = edge.overlap
+      # the step of the path shall be the link to which the edge is converted,
+      # or its complement
+      step = (segments[i].name, segments[i].orient,
+              segments[i+1].name, segments[i+1].orient)
+      direct = (edge.from_name, edge.from_orient,
+                edge.to_name, edge.to_orient)
+      compl = (edge.to_name, gfapy.invert(edge.to_orient),
+               edge.from_name, gfapy.invert(edge.from_orient))
+      if step == direct and step == compl:
+        is_compl = (oline.orient == "-")
+      elif step == direct:
+        is_compl = False
+      elif step == compl:
+        is_compl = True
+      else:
+        raise gfapy.ValueError(
+          "Conversion to GFA1 failed\n"+
+          "The path goes from {} to {} ".format(segments[i], segments[i+1])+
+          "through the edge {}, ".format(edge.name)+
+          "which overlaps the segments in another direction\n"+
+          "Line: {}".format(self))
+      if is_compl:
         # the edge is traversed in the opposite direction
         overlap = overlap.complement()
       gfapy.Field._validate_gfa_field(overlap, "alignment_gfa1")
